@@ -161,6 +161,10 @@ fn pa(e: &E, ind: usize) -> String {
     if is_atom(e) { pe(e, ind) } else { format!("({})", pe(e, ind)) }
 }
 fn pbranch(e: &E, ind: usize) -> String {
+    if matches!(e, E::Paren(_)) {
+        // explicitly requested redundant parentheses are printed as they are (C16)
+        return pe(e, ind);
+    }
     let s = pa(e, ind);
     if s.starts_with('(') || s.starts_with('-') || s.starts_with('|') { format!("{{ {} }}", pe(e, ind)) } else { s }
 }
